@@ -352,6 +352,18 @@ func muxerWriterLink(c *Ctx, rule, bw, target string, byValue bool, what string)
 								}
 							}
 						}
+						// the very value that is also stored into m.<target> (both written in one composite literal)
+						if byValue && v.Referrers() != nil {
+							for _, r3 := range *v.Referrers() {
+								if s3, isS3 := r3.(*ssa.Store); isS3 && s3.Val == v {
+									if tfa, isT := s3.Addr.(*ssa.FieldAddr); isT && tfa.X == fa.X {
+										if tn, _ := ssau.FieldName(tfa); tn == target {
+											ok = true
+										}
+									}
+								}
+							}
+						}
 					}
 				}
 			}
